@@ -93,6 +93,8 @@ impl Method for SWMA {
 	#[inline]
 	fn next(&mut self, &value: &Self::Input) -> Self::Output {
 		if self.right_window.is_empty() {
+			// `length` is `1`, the only weight is `1`: keep the state `peek` reads from up to date
+			self.numerator = value;
 			return value;
 		}
 
